@@ -139,15 +139,41 @@ func (ms *modelSession) evalBool(term string) bool { return ms.eval(term) == "tr
 func (x *Exec) cexQuery(o *Obligation) string {
 	var b strings.Builder
 	b.WriteString(x.preambleNoQuant())
-	for _, l := range x.lines[:o.Prefix] {
+	lines := x.lines[:o.Prefix]
+	decls, _, negGoal := preInstantiate(nil, o.PC, o.Goal, 0)
+	cands := []*sx_{{atom: "0"}, {atom: "1"}, {atom: "2"}}
+	for _, d := range decls {
+		b.WriteString(d + "\n")
+		f := strings.Fields(d)
+		cands = append(cands, &sx_{atom: f[1]})
+	}
+	for _, l := range lines {
 		if strings.HasPrefix(l, "(assert") && (strings.Contains(l, "(forall ") || strings.Contains(l, "(exists ")) {
+			// weaken: positive single-variable foralls become finite conjunctions; anything
+			// else that is quantified is dropped
+			t := parseSexpr(l)
+			if t == nil || len(t.kids) != 2 {
+				continue
+			}
+			did := false
+			inst := instantiate(t.kids[1], true, cands, &did)
+			w := inst.String()
+			if strings.Contains(w, "(forall ") || strings.Contains(w, "(exists ") {
+				continue
+			}
+			b.WriteString("(assert " + w + ")\n")
 			continue
 		}
 		b.WriteString(l)
 		b.WriteByte('\n')
 	}
+	b.WriteString(x.prog.lemmaInstances(lines, o.Goal))
+	b.WriteString(x.prog.boundedUnfold(lines, o.Goal, 6))
 	b.WriteString(sx("assert", o.PC) + "\n")
-	b.WriteString(sx("assert", not(o.Goal)) + "\n")
+	if strings.Contains(negGoal, "(forall ") || strings.Contains(negGoal, "(exists ") {
+		negGoal = sx("assert", not(o.Goal))
+	}
+	b.WriteString(negGoal + "\n")
 	return b.String()
 }
 
@@ -320,7 +346,7 @@ func (r *reifier) val(v Val) string {
 		}
 		n, ok := r.ms.evalInt(v.slen())
 		if !ok || n < 0 {
-			return r.failf("no slice length")
+			return r.failf("no slice length (term %s, model value %q)", truncate(v.slen(), 200), r.ms.eval(v.slen()))
 		}
 		if n > 64 {
 			return r.failf("slice of %d elements is too large to replay", n)
@@ -737,7 +763,19 @@ func tryReplay(prog *Program, o *Obligation, rf *ReplayFile) bool {
 		rf.ReplayResult = "no function context"
 		return false
 	}
+	small := x.smallModelConstraints()
 	q := x.cexQuery(o)
+	if os.Getenv("GVC_DEBUG_CEX") != "" {
+		os.WriteFile("/tmp/gvc_cex_"+sanitize(o.Name)+".smt2", []byte(q+small+"(check-sat)\n"), 0o644)
+	}
+	if small != "" {
+		if ms, st := startModelSession(q+small, 10); st == "sat" {
+			ms.close()
+			q += small
+		} else if ms != nil {
+			ms.close()
+		}
+	}
 	hints := []string{"", "8", "4", "1", "2", "3", "16", "5"}
 	var last string
 	tried := 0
@@ -792,6 +830,80 @@ func tryReplay(prog *Program, o *Obligation, rf *ReplayFile) bool {
 		rf.ReplayResult = last
 	}
 	return false
+}
+
+// smallModelConstraints bounds the sizes and integer contents of the input structure reachable
+// from the parameters so that models are small enough to be rebuilt as Go values.
+func (x *Exec) smallModelConstraints() string {
+	fr := x.topFrame
+	st := fr.entry
+	var cs []string
+	var walk func(v Val, depth int)
+	walk = func(v Val, depth int) {
+		if depth > 3 || v.T == nil || isDtype(v.T) {
+			return
+		}
+		if ti := x.typeInv(v, st); !strings.Contains(ti, "forall") {
+			cs = append(cs, ti)
+		}
+		switch u := v.T.Underlying().(type) {
+		case *types.Basic:
+			if u.Info()&types.IsInteger != 0 {
+				cs = append(cs, sx("<=", "(- 3)", v.C[0]), sx("<=", v.C[0], "20"))
+			}
+		case *types.Slice:
+			cs = append(cs, sx("<=", v.slen(), "5"), sx("<=", sub(v.scap(), v.slen()), "2"))
+			for k := 0; k < 5; k++ {
+				a := Addr{Prefix: "E$" + typeKey(u.Elem()), Ref: v.base(), Idx: add(v.off(), fmt.Sprint(k)), T: u.Elem()}
+				walk(x.load(st, a), depth+1)
+			}
+		case *types.Pointer:
+			if isDensePtr(v.T) {
+				cs = append(cs, sx("<=", x.tRank(st, v.C[0]), "4"))
+				for k := 0; k < 4; k++ {
+					cs = append(cs, sx("<=", x.tDim(st, v.C[0], fmt.Sprint(k)), "4"))
+				}
+				return
+			}
+			if stt, ok := u.Elem().Underlying().(*types.Struct); ok {
+				sv := x.load(st, x.objAddr(u.Elem(), v.C[0]))
+				for i := 0; i < stt.NumFields(); i++ {
+					if n := stt.Field(i).Name(); n == "state" || n == "sizeCache" || n == "unknownFields" {
+						continue
+					}
+					lo, hi := fieldRange(stt, i)
+					walk(Val{T: stt.Field(i).Type(), C: sv.C[lo:hi]}, depth+1)
+				}
+			}
+		case *types.Struct:
+			for i := 0; i < u.NumFields(); i++ {
+				lo, hi := fieldRange(u, i)
+				walk(Val{T: u.Field(i).Type(), C: v.C[lo:hi]}, depth+1)
+			}
+		case *types.Interface:
+			if isTensorIface(v.T) {
+				cs = append(cs, sx("<=", x.tRank(st, v.pay()), "4"))
+				for k := 0; k < 4; k++ {
+					cs = append(cs, sx("<=", x.tDim(st, v.pay(), fmt.Sprint(k)), "4"))
+				}
+			}
+		}
+	}
+	for _, p := range fr.params {
+		// parameters themselves keep their full integer range; only sizes below them are bounded
+		switch p.T.Underlying().(type) {
+		case *types.Basic:
+			continue
+		}
+		walk(p, 0)
+	}
+	if len(cs) == 0 {
+		return ""
+	}
+	if len(cs) > 3000 {
+		cs = cs[:3000]
+	}
+	return sx("assert", and(cs...)) + "\n"
 }
 
 var _ = ssa.Function{}
